@@ -80,7 +80,9 @@ class CustomError(Exception):
 QUARTERS = [0.0, 0.25, 0.5, 0.75, 1.0]
 
 
-_TLS_HOOKS = TLS_SETUP + [h for h in TCP_HOOKS if h not in ("send_fail", "no_peername")]
+# for TLS "send_fail" is a connection that breaks for writing while the handler is busy (every later write of the wrapped
+# transport fails, including the close_notify of the server's own graceful close)
+_TLS_HOOKS = TLS_SETUP + [h for h in TCP_HOOKS if h not in ("no_peername",)]
 _PAIRS = [("tcp", h) for h in TCP_HOOKS] + [("tls", h) for h in _TLS_HOOKS] + [("udp", h) for h in UDP_HOOKS] * 2
 
 
@@ -621,7 +623,7 @@ async def _faults_main(case: dict) -> dict:
     fc: _StreamClient | None = None
     if not udp:
         fscript = None
-        if kind == "send_fail":
+        if kind == "send_fail" and not tls:
             idx = f["n"] + (1 if f["onconn"] == "gen" else 0)
             fscript = {"fail": {"send_all_from_iterable": {str(idx): f["exc"]}}}
         fc = _StreamClient(
@@ -662,6 +664,13 @@ async def _faults_main(case: dict) -> dict:
             expected[FAULTY_PORT].append(payload)
             at(tcur, 0, send_to(FAULTY_PORT, payload))
         tcur += gap
+        if kind == "send_fail" and tls:
+
+            def break_for_writing() -> None:
+                assert fc is not None
+                fc.tr.send_error = make_error(f["exc"])
+
+            at(tcur, 0, break_for_writing)
         if kind in ("onconn_gen_after", "handle_after", "send_fail") or (udp and kind == "handle_before"):
             at(tcur, y, send_to(FAULTY_PORT, b"f-trigger"))
         elif kind in ("onconn_gen_thrown_parse", "handle_thrown_parse"):
